@@ -36,7 +36,7 @@ PROBES = ['shape_1_1', 'shape_n_n', 'shape_1_n', 'shape_n_1', 'chain_len_ge_2', 
           'joinlink_added', 'joinlink_removed', 'key_updated', 'partner_removed_from_collection', 'mixed_numeric_dtype', 'mixed_string_width',
           'empty_selection', 'view_compare']
 
-WEIGHTS = {'join': 7, 'joinlink': 2, 'remove_joinlink': 1, 'upd': 2, 'remove': 0.5, 'compare': 7}
+WEIGHTS = {'join': 7, 'joinlink': 2, 'remove_joinlink': 1, 'upd': 2, 'remove': 0.5, 'compare': 7, 'failing_eval': 1.5}
 KEYKINDS = ['int', 'float', 'sshort', 'slong']
 
 
@@ -83,6 +83,8 @@ def generate(rng, cfg, guards):
             ops.append([k, r8()])
         elif k == 'upd':
             ops.append([k, r8(), r8(), rng.randrange(10000)])
+        elif k == 'failing_eval':
+            ops.append([k, r8()])
         else:
             ops.append([k, r8(), rng.pick([-1, 2, 2, 5, 7, 20]), rng.pick([None, None, [0, 3, 1], [1, 4, 2]])])
     ops.append(['compare', 0, 2, None])
@@ -192,6 +194,19 @@ def execute(case, res):
                 # component links, so the link manager does not drop it either)
                 dc.remove(t)
                 res.probe('partner_removed_from_collection')
+        elif k == 'failing_eval':
+            # a selection whose evaluation fails inside the partner with something other than IncompatibleAttribute
+            # (ordering comparison between numbers and text): the failure must not leave any trace behind
+            src = tables[op[1] % len(tables)]
+            kc = kcols(op[1] % len(tables))[0]
+            bad = InequalitySubsetState(kc, 'text' if np.asarray(src[kc]).dtype.kind in 'if' else 1, operator.gt)
+            for t in tables:
+                if t is src:
+                    continue
+                try:
+                    t.get_mask(bad)
+                except Exception:
+                    res.fault('evaluation_error_in_partner')
         elif k == 'compare':
             compare(tables, joins, kinds, op, res)
         for t in tables:
